@@ -67,6 +67,10 @@ def generate(rng, run, tier):
         if i.get("template") == "many_frames" and i["integration"] == "rdflib" and i["consumer"] == "grouped":
             # one rdflib Graph/Dataset per frame by design; constructing one costs ~0.2 ms in rdflib itself
             i["count"] = min(i["count"], 2000)
+    if run == 3:
+        # one fixed heavy case per invocation (both tiers): ~100 KB of declarations that all use one label
+        inputs[0] = {"kind": "hostile", "template": "many_namespaces", "seed": 3, "delimited": True, "count": 4500,
+                     "same_label": True, "consumer": "to_graph", "integration": "rdflib", "frontend": "bytesio"}
     return {"inputs": inputs}
 
 
@@ -75,7 +79,7 @@ SIZES = [4097, 5000, 1 << 16, 1 << 20, 1 << 24, 1 << 28, (1 << 31) - 1, (1 << 32
 
 def gen_hostile(rng):
     t = rng.choice(["table_sizes", "table_sizes", "frame_length", "nesting", "string_length", "options_position",
-                    "many_frames", "entry_ids", "long_varint", "literal_magnitude"])
+                    "many_frames", "entry_ids", "long_varint", "literal_magnitude", "many_namespaces"])
     h = {"kind": "hostile", "template": t, "seed": rng.randrange(1 << 30), "delimited": rng.random() < 0.7}
     if t == "table_sizes":
         h["which"] = rng.choice(["names", "prefixes", "datatypes", "all"])
@@ -95,6 +99,10 @@ def gen_hostile(rng):
     elif t == "many_frames":
         h["count"] = rng.choice([1000, 100000])
         h["variant"] = rng.choice(["empty", "empty_then_valid", "tiny_rows"])
+    elif t == "many_namespaces":
+        # a version-2 stream that is nothing but namespace declarations
+        h["count"] = rng.choice([10, 300, 1200])
+        h["same_label"] = rng.random() < 0.5
     elif t == "literal_magnitude":
         # a short literal whose lexical form *declares* a size: a decimal / double / integer with a huge exponent
         h["exponent"] = rng.choice([1000, 1_000_000, 30_000_000, 100_000_000])
@@ -256,6 +264,12 @@ def build_hostile(rec, rng) -> bytes:
         first = wire.Frame([wire.enc_row(("options", _opts()))]).encode()
         tiny = wire.Frame([wire.enc_row(("name", 0, "n"))]).encode()
         return wire.join_delimited([first] + [tiny] * n)
+    if t == "many_namespaces":
+        rows = [wire.enc_row(("options", _opts(names=4000, prefixes=8, version=2))), wire.enc_row(("prefix", 1, "http://e/"))]
+        for i in range(rec["count"]):
+            rows.append(wire.enc_row(("name", 1, f"n{i}/")))
+            rows.append(wire.enc_row(("namespace", "p" if rec["same_label"] else f"p{i}", ("iri", 1, 1))))
+        return stream(rows + _stmt_rows())
     if t == "literal_magnitude":
         lex = f"1E{rec['sign']}{rec['exponent']}"
         rows = [wire.enc_row(("options", _opts())), wire.enc_row(("prefix", 0, "http://e/")),
@@ -347,9 +361,11 @@ def child_main(inputs, start, wfd):
         os.write(wfd, f"S {i} {len(data)}\n".encode())
         reset_peak()
         before = vm("VmRSS")
-        t0 = time.monotonic()
+        # CPU time of this child, not wall time: the parse neither sleeps nor waits, and CPU time does not
+        # depend on how busy the machine is (the wall-clock watchdog of the parent stays)
+        t0 = time.process_time()
         outcome, detail, n, reads = parse_one(rec, data)
-        dt = time.monotonic() - t0
+        dt = time.process_time() - t0
         peak = vm("VmHWM")
         growth = max(0, peak - before)
         detail = (detail or "-").replace(" ", "_").replace("\n", "_")[:120]
@@ -445,7 +461,7 @@ def execute(plan, sim):
         sim.event("input", i, rec["kind"], res["len"], res["outcome"], res["detail"], res["items"])
         oc = res["outcome"]
         sig_base = {"kind": rec["kind"], "template": rec.get("template") or rec.get("op") or "-"}
-        if rec.get("template") == "literal_magnitude":
+        if rec.get("template") in ("literal_magnitude", "many_namespaces"):
             sig_base["integration"] = rec["integration"]
         where = f"input {i} ({rec['kind']} {rec.get('template') or rec.get('op') or ''}, {res['len']} bytes, " \
                 f"{rec['integration']} {rec['consumer']} via {rec['frontend']})"
@@ -482,5 +498,5 @@ def execute(plan, sim):
                                       "msg": f"{where}: {res['items']} items from {res['len']} bytes"})
         if oc in ("returned", "raised") and res["secs"] > 15:
             v.setdefault(("slow",), {"clause": "C17.not_prompt", "sig": sig_base,
-                                     "msg": f"{where}: took {res['secs']:.1f} s"})
+                                     "msg": f"{where}: took {res['secs']:.1f} s of CPU time"})
     return list(v.values()), frozenset(keys) if keys else None
